@@ -60,6 +60,11 @@ aligned_st = st.fixed_dictionaries({'op': st.just('learn'), 'type': st.sampled_f
                                     'ttl': st.sampled_from(TTLS), 'repeat': st.sampled_from([0, 0, 0, 1]),
                                     'align': st.fixed_dictionaries({'pct': st.sampled_from([75, 75, 85, 95]),
                                                                     'frac': st.sampled_from([-1.2, -1.0, -0.5, 0.0, 0.3, 1.0, 1.2])})})
+# several pointers of one type in one datagram (a responder answering for all its instances): they share arrival time and TTL, so
+# their 75 % / 85 % / 95 % points coincide
+multi_st = st.fixed_dictionaries({'op': st.just('learn_multi'), 'type': st.sampled_from([0, 0, 1]),
+                                  'insts': st.lists(st.integers(0, 3), min_size=2, max_size=3, unique=True),
+                                  'ttl': st.sampled_from([1, 1200, 4500])})
 tick_st = st.one_of(
     st.sampled_from([10, 1000, 5000, 14000, 20000, 40000, 60000, 300000, 900000, 1000000, 3000000]).map(lambda ms: {'op': 'tick', 'ms': ms}),
     st.integers(0, 5000000).map(lambda ms: {'op': 'tick', 'ms': ms}),
@@ -78,13 +83,21 @@ def scenario(draw) -> Dict[str, Any]:
     layout = draw(st.sampled_from([[[0]], [[0]], [[0], [1]], [[0], [1]], [[0, 1]], [[0, 2]], [[0, 2]], [[0, 1, 2]]]))
     browsers = [{'types': ts, 'delay': draw(st.sampled_from([1, 2, 10, 60])), 'qtype': draw(st.sampled_from([None, None, 'QU', 'QM']))}
                 for ts in layout]
-    ops = draw(st.lists(st.one_of(learn_st, learn_st, tick_st, aligned_st), min_size=1, max_size=12))
+    ops = draw(st.lists(st.one_of(learn_st, learn_st, tick_st, aligned_st, multi_st), min_size=1, max_size=12))
     if draw(st.booleans()):
         # the shape the suite lacks: a shorter-lived record learned while the timer is armed for a longer-lived one
         ops = [{'op': 'tick', 'ms': draw(st.sampled_from([15000, 20000, 100000]))},
                {'op': 'learn', 'type': 0, 'inst': 0, 'sp': 0, 'ttl': draw(st.sampled_from([4500, 7200, 36000]))},
                {'op': 'tick', 'ms': draw(st.sampled_from([1000, 40000, 600000]))},
                {'op': 'learn', 'type': 0, 'inst': 1, 'sp': 0, 'ttl': draw(st.sampled_from([1, 1200, 2000]))}] + ops
+    if draw(st.integers(0, 5)) == 0:
+        # two or three instances learned from one datagram; after their common 75 % query one of them is refreshed or withdrawn and
+        # the others stay silent: they still have to be asked for at 85 % and 95 %
+        ttl = draw(st.sampled_from([1, 1200, 4500]))
+        insts = draw(st.lists(st.integers(0, 3), min_size=2, max_size=3, unique=True))
+        ops = [{'op': 'tick', 'ms': 15000}, {'op': 'learn_multi', 'type': 0, 'insts': insts, 'ttl': ttl},
+               {'op': 'to_fraction', 'pct': draw(st.sampled_from([75, 85])), 'delta': draw(st.sampled_from([2000, 20000, 61000]))},
+               {'op': 'learn', 'type': 0, 'inst': draw(st.sampled_from(insts)), 'sp': 0, 'ttl': draw(st.sampled_from([0, 4500, ttl])), 'repeat': 0}] + ops
     if any(0 in b['types'] and 2 in b['types'] for b in browsers) and draw(st.booleans()):
         # one instance learned through the pointer of its type and, some time later, through the pointer of a subtype (or the other
         # way round), with equal or different TTLs: two records, two lifetimes, two refresh ladders
@@ -206,6 +219,26 @@ class Exec:
                     target = nr.when() + op['delta'] / 1000.0
                     if target > w.clock.t:
                         await asyncio.sleep(target - w.clock.t)
+            elif kind == 'learn_multi':
+                if op['type'] not in delay_of:
+                    continue
+                rrs = [{'name': wire.labels_of(TYPES[op['type']]), 'type': 12, 'cls': 1, 'ttl': op['ttl'],
+                        'rd': {'target': wire.labels_of(alias(op['type'], ii, 0))}} for ii in op['insts']]
+                data = wire.encode({'id': msg_id, 'flags': 0x8400, 'qd': [], 'an': rrs, 'ns': [], 'ar': []})
+                msg_id += 1
+                now = w.clock.t
+                self._expire(now)
+                T = float(max(op['ttl'], 1125))
+                for ii in op['insts']:
+                    key = (op['type'], ii)
+                    old = self.live.get(key)
+                    if old is not None:
+                        old['u'] = now
+                    v = {'type': op['type'], 'key': key, 'c': now, 'T': T, 'u': None, 'sp': 0, 'recased': old is not None and old['sp'] != 0}
+                    self.versions.append(v)
+                    self.live[key] = v
+                self.stats['multi'] = self.stats.get('multi', 0) + 1
+                w.net.inject(host, data, PEER)
             elif kind == 'learn':
                 if op['type'] not in delay_of:
                     continue
@@ -367,6 +400,8 @@ def check(case: Dict[str, Any]) -> Dict[str, Any]:
     if ex.stats.get('aligned_refresh'):
         nontrivial = True
         classes.append('refresh-with-75pct-point-near-the-scheduled-query')
+    if ex.stats.get('multi'):
+        classes.append('several-pointers-learned-from-one-datagram')
     if ex.stats['refresh_in_window']:
         nontrivial = True
         classes.append('refresh-inside-attempt-window')
